@@ -78,14 +78,15 @@ type contractDB struct {
 	Contracts map[string]*contract
 	Markers   []string // assume/axiom/trusted style markers found
 	Ghosts    map[string]string // ghost state variable -> type
+	Invariants map[string][]*clause // layer -> global invariants of the property's sweep (assumed at entry of every function in scope, asserted at its exits and before every call into the scope)
 	Scopes    map[string][]string // property -> root functions: every module function reachable from them is in the property's sweep
 	Files     []string
 }
 
-var clauseKw = regexp.MustCompile(`^(scope|ghost|spec|macro|lemma|contract|external|requires|ensures|emits|callsite|decreases|loop|safety|props|inline|pure|modifies|noreturn|fuel|unreachable)\b`)
+var clauseKw = regexp.MustCompile(`^(scope|invariant|ghost|spec|macro|lemma|contract|external|requires|ensures|emits|callsite|decreases|loop|safety|props|inline|pure|modifies|noreturn|fuel|unreachable)\b`)
 
 func newContractDB() *contractDB {
-	return &contractDB{Specs: map[string]*specDef{}, Contracts: map[string]*contract{}, Ghosts: map[string]string{}, Scopes: map[string][]string{}}
+	return &contractDB{Specs: map[string]*specDef{}, Contracts: map[string]*contract{}, Ghosts: map[string]string{}, Scopes: map[string][]string{}, Invariants: map[string][]*clause{}}
 }
 
 // loadContractFile parses one file. pkgPath is the Go package the file belongs to ("" for external files,
@@ -149,6 +150,17 @@ func (db *contractDB) loadContractFile(path, pkgPath string) error {
 			return fmt.Errorf("%s:%d: %s", path, rc.line, fmt.Sprintf(f, a...))
 		}
 		switch kw {
+		case "invariant":
+			// invariant[PROP] expr: a state invariant of the property's sweep
+			if layer == "" {
+				return fail("invariant[PROP] expr")
+			}
+			e, err := parseCExpr(rest)
+			if err != nil {
+				return fail("%v", err)
+			}
+			db.Invariants[layer] = append(db.Invariants[layer], &clause{Kind: "invariant", Layer: layer, Label: layer + ".invariant", Src: rest, Expr: e, File: path, Line: rc.line, Target: pkgPath})
+			cur = nil
 		case "scope":
 			// scope PROP ROOT...: the property's safety sweep covers every module function reachable from the roots
 			f := strings.Fields(rest)
